@@ -108,7 +108,7 @@ def run_tlc(module, cfg, workdir, workers=16, timeout=3600, env=None, extra=(), 
     os.makedirs(workdir, exist_ok=True)
     meta = os.path.join(workdir, "meta_%s_%d" % (tag, int(time.time() * 1000) % 10**9))
     shutil.rmtree(meta, ignore_errors=True)
-    jopts = ["-XX:+UseParallelGC"]
+    jopts = ["-XX:+UseParallelGC", "-Xss32m"]
     if heap:
         jopts.append("-Xmx%s" % heap)
     if dfs:
